@@ -353,12 +353,15 @@ inductive SigFlag where | ok | badkey | badseq
 structure Tx where
   signers : List Addr           -- the accounts whose keys sign, in order
   granter : Option Addr
+  /-- `AuthInfo.Fee.Payer` when set: that account pays the fee (and must sign too) instead of the first signer -/
+  feePayer : Option Addr := none
   fee : Coins
   sig : SigFlag
   msgs : List Msg
   deriving Repr, Inhabited
 
-inductive Mode where | check | deliver
+/-- `recheck` : CheckTx of type Recheck — the mempool re-validation CometBFT runs after every commit -/
+inductive Mode where | check | deliver | recheck
   deriving DecidableEq, Repr
 
 def dedup : List Addr → List Addr
@@ -366,10 +369,20 @@ def dedup : List Addr → List Addr
   | a :: as => let r := dedup as; if r.contains a then a :: r.filter (· ≠ a) else a :: r
 
 /-- `tx.GetSigners()` : signers of the top-level messages, first occurrence order -/
-def Tx.required (tx : Tx) : List Addr :=
+def Tx.msgSigners (tx : Tx) : List Addr :=
   (tx.msgs.filterMap Msg.signer).foldl (fun acc a => if acc.contains a then acc else acc ++ [a]) []
 
-def Tx.payer (tx : Tx) : Option Addr := tx.required.head?
+/-- … followed by the explicit fee payer, if one is set and is not among them -/
+def Tx.required (tx : Tx) : List Addr :=
+  match tx.feePayer with
+  | some p => if tx.msgSigners.contains p then tx.msgSigners else tx.msgSigners ++ [p]
+  | none => tx.msgSigners
+
+/-- `tx.FeePayer()` : the explicit fee payer, else the first signer -/
+def Tx.payer (tx : Tx) : Option Addr :=
+  match tx.feePayer with
+  | some p => some p
+  | none => tx.msgSigners.head?
 
 def Tx.hasKind (tx : Tx) (k : RegKind) : Bool := tx.msgs.any (Msg.isOfKind k)
 
@@ -445,7 +458,7 @@ def checkMaxSlots (r : RegState) (k : RegKind) (tx : Tx) : M Unit :=
 /-- `Correct{WrkChain,Beacon}FeeDecorator` -/
 def feeDecorator (k : RegKind) (mode : Mode) (s : State) (tx : Tx) : M State :=
   if !tx.hasKind k then .ok s else do
-    (if mode = .check then checkFees (s.reg k) k tx else .ok ())
+    (if mode ≠ .deliver then checkFees (s.reg k) k tx else .ok ())   -- `ctx.IsCheckTx()` holds for New and Recheck
     checkPayerFunds s (s.reg k) tx
     checkMaxSlots (s.reg k) k tx
     pure s
@@ -509,19 +522,26 @@ def stepSigVerification (s : State) (tx : Tx) : M State := do
   | .badkey => .error eUnauthorized
   | .badseq => .error eWrongSequence
 
+/-- `ValidateBasicDecorator` and `SigVerificationDecorator` return at once when the context is a recheck -/
+def stepValidateBasicR (mode : Mode) (s : State) (tx : Tx) : M State :=
+  if mode = .recheck then .ok s else stepValidateBasic s tx
+
+def stepSigVerificationR (mode : Mode) (s : State) (tx : Tx) : M State :=
+  if mode = .recheck then .ok s else stepSigVerification s tx
+
 /-- one ante step by its decorator name (from `Facts.anteOrder`); `none` = unknown decorator -/
 def anteStep (name : String) : Option (Mode → State → Tx → M State) :=
   match name with
   | "SetUpContext" | "ExtensionOptions" | "TxTimeoutHeight" | "ValidateMemo" | "ConsumeGasForTxSize"
   | "ValidateSigCount" | "SigGasConsume" | "RedundantRelay" | "IncrementSequence" =>
     some (fun _ s _ => .ok s)
-  | "ValidateBasic" => some (fun _ s tx => stepValidateBasic s tx)
+  | "ValidateBasic" => some (fun mode s tx => stepValidateBasicR mode s tx)
   | "CorrectWrkChainFee" => some (fun mode s tx => feeDecorator .wrk mode s tx)
   | "CorrectBeaconFee" => some (fun mode s tx => feeDecorator .bcn mode s tx)
   | "CheckLockedUnd" => some (fun _ s tx => unlockDecorator s tx)
   | "DeductFee" => some (fun _ s tx => deductFee s tx)
   | "SetPubKey" => some (fun _ s tx => stepSetPubKey s tx)
-  | "SigVerification" => some (fun _ s tx => stepSigVerification s tx)
+  | "SigVerification" => some (fun mode s tx => stepSigVerificationR mode s tx)
   | _ => none
 
 def anteStepM (mode : Mode) (tx : Tx) (s : State) (name : String) : M State :=
@@ -571,6 +591,16 @@ def checkTx (order : List String) (s : State) (tx : Tx) : State × TxResult :=
   | .error e => (s, { outcome := .ofErr e, code := errCode e })
   | .ok _ =>
     match ante order .check s tx with
+    | .error e => (s, { outcome := .ofErr e, code := errCode e })
+    | .ok s1 => (s1, { outcome := .ok, code := "0" })
+
+/-- `BaseApp.runTx` in recheck mode: as check mode, with the ante decorators that skip a recheck skipped -/
+def recheckTx (order : List String) (s : State) (tx : Tx) : State × TxResult :=
+  if tx.msgs.isEmpty then (s, { outcome := .err, code := "sdk:18" }) else
+  match Msg.validateBasicList s tx.msgs with
+  | .error e => (s, { outcome := .ofErr e, code := errCode e })
+  | .ok _ =>
+    match ante order .recheck s tx with
     | .error e => (s, { outcome := .ofErr e, code := errCode e })
     | .ok s1 => (s1, { outcome := .ok, code := "0" })
 
